@@ -245,7 +245,8 @@ func (l *StakingLedger) WithdrawDelegatorReward(ctx context.Context, msg *distrt
 	if l.Reward.IsPositive() {
 		coins = sdk.Coins{sdk.Coin{Denom: l.Denom, Amount: l.Reward}}
 		if l.Bank != nil {
-			l.Bank.set(del, l.Denom, l.Bank.Balance(del, l.Denom).Add(l.Reward))
+			st := l.Bank.state(ctx)
+			st.set(del, l.Denom, st.balance(del, l.Denom).Add(l.Reward))
 		}
 	}
 	return &distrtypes.MsgWithdrawDelegatorRewardResponse{Amount: coins}, nil
